@@ -19,7 +19,7 @@ def write(pid, ev):
     if schema is not None:
         import jsonschema
         jsonschema.validate(ev, schema)
-    d = os.path.join(VERIF, 'evidence')
+    d = os.environ.get('VERIF_EVIDENCE_DIR') or os.path.join(VERIF, 'evidence')
     os.makedirs(d, exist_ok=True)
     tmp = os.path.join(d, f'.{pid}.json.tmp')
     with open(tmp, 'w') as f:
